@@ -48,6 +48,11 @@ func genScenario(t *rapid.T) *modsim.Scenario {
 	if sc.Mgmt && !prepFault && rapid.Bool().Draw(t, "manage_after_failed_start") {
 		sc.ManageAfterFailedStart = true
 	}
+	// ... but whatever such a caller brings online must still be stopped by Shutdown ("even if another module failed
+	// to prep"): with a prep fault the passes are executed in a part of the cases and judged without clause (d).
+	if sc.Mgmt && prepFault && rapid.IntRange(0, 2).Draw(t, "manage_after_failed_prep") == 1 {
+		sc.ManageAfterFailedStart = true
+	}
 	return sc
 }
 
@@ -109,6 +114,23 @@ func classify(sc *modsim.Scenario, res *modsim.Result) []string {
 	cls = append(cls, fmt.Sprintf("max_concurrent_starts_%d", min(max, 4)))
 	if manage > 0 {
 		cls = append(cls, "with_manage_steps")
+	}
+	startFailed, startedLater := false, false
+	for _, ev := range res.Events {
+		if ev.Kind == "api" && ev.Info == "start" && !ev.ErrNil {
+			startFailed = true
+		}
+		if startFailed && ev.Kind == "start-end" && ev.Info == "ok" {
+			startedLater = true
+		}
+	}
+	if startedLater && len(faults) > 0 {
+		for f := range faults {
+			if len(f) > 11 && f[:11] == "fault_prep_" {
+				cls = append(cls, "module_brought_online_by_a_pass_after_a_failed_prep")
+				break
+			}
+		}
 	}
 	return cls
 }
